@@ -180,4 +180,495 @@ theorem solutions_nodup (s : System) : (solutions s).Nodup :=
 theorem box_nodup (s : System) : s.box.Nodup :=
   (box_sorted s).imp (fun {a b} h hab => by subst hab; exact lexLt_irrefl a h)
 
+/-! ### the generic labeling tree -/
+
+theorem product_set_perm : ∀ (st : Store) (i : Nat) (L R : List Int), i < st.length →
+    (L ++ R).Perm (st.getD i []) →
+    (product (st.set i L) ++ product (st.set i R)).Perm (product st)
+  | [], _, _, _, hi, _ => by simp at hi
+  | d :: ds, 0, L, R, _, h => by
+      simp only [List.set_cons_zero, product]
+      rw [← List.flatMap_append]
+      exact List.Perm.flatMap_right _ (by simpa using h)
+  | d :: ds, i+1, L, R, hi, h => by
+      simp only [List.set_cons_succ, product]
+      refine (List.flatMap_append_perm d _ _).trans ?_
+      apply List.Perm.flatMap_left
+      intro v _
+      rw [← List.map_append]
+      exact (product_set_perm ds i L R (by simpa using hi) (by simpa using h)).map _
+
+theorem product_done : ∀ st : Store, st.done = true → product st = (Store.assignment st).toList
+  | [], _ => by simp [product, Store.assignment]
+  | d :: ds, h => by
+      have hd : d.length ≤ 1 ∧ Store.done ds = true := by
+        simpa [Store.done] using h
+      have ih := product_done ds hd.2
+      match d, hd.1 with
+      | [], _ => simp [product, Store.assignment, single?]
+      | [v], _ =>
+          simp only [product, Store.assignment, single?, List.flatMap_cons, List.flatMap_nil,
+            List.append_nil, ih]
+          cases Store.assignment ds <;> simp
+
+theorem size_set : ∀ (st : Store) (i : Nat) (L : List Int), i < st.length →
+    Store.size (st.set i L) + (st.getD i []).length = Store.size st + L.length
+  | [], _, _, hi => by simp at hi
+  | d :: ds, 0, L, _ => by simp [Store.size]; omega
+  | d :: ds, i+1, L, hi => by
+      have := size_set ds i L (by simpa using hi)
+      simp [Store.size] at this ⊢; omega
+
+theorem not_done_of_open {st : Store} {i : Nat} (h : 2 ≤ (st.getD i []).length) : st.done = false := by
+  cases hd : st.done with
+  | false => rfl
+  | true =>
+    exfalso
+    simp only [Store.done, List.all_eq_true, decide_eq_true_eq] at hd
+    have hi : i < st.length := by
+      by_contra hc
+      simp [List.getD_eq_getElem?_getD, List.getElem?_eq_none (Nat.le_of_not_lt hc)] at h
+    have := hd (st[i]) (List.getElem_mem hi)
+    simp [List.getD_eq_getElem?_getD, List.getElem?_eq_getElem hi] at h
+    omega
+
+theorem tree_perm (br : Store → Branch) (hv : ValidBranch br) : ∀ (f : Nat) (st : Store),
+    st.size ≤ f → ((tree br f st).filterMap Store.assignment).Perm (product st) := by
+  intro f
+  induction f with
+  | zero =>
+      intro st hs
+      cases hd : st.done with
+      | true =>
+          rw [show tree br 0 st = [st] from rfl, product_done st hd]
+          cases h : Store.assignment st <;> simp [h]
+      | false =>
+          exfalso
+          obtain ⟨hi, hl, hr, hp⟩ := hv st hd
+          have h1 := size_set st (br st).i [] hi
+          have h2 := hp.length_eq
+          have : 0 < (br st).left.length := List.length_pos_iff.2 hl
+          simp at h1 h2; omega
+  | succ f ih =>
+      intro st hs
+      cases hd : st.done with
+      | true =>
+          rw [show tree br (f+1) st = [st] by simp [tree, hd], product_done st hd]
+          cases h : Store.assignment st <;> simp [h]
+      | false =>
+          obtain ⟨hi, hl, hr, hp⟩ := hv st hd
+          have hl' : 0 < (br st).left.length := List.length_pos_iff.2 hl
+          have hr' : 0 < (br st).right.length := List.length_pos_iff.2 hr
+          have h2 := hp.length_eq
+          have h1 := size_set st (br st).i (br st).left hi
+          have h3 := size_set st (br st).i (br st).right hi
+          simp only [List.length_append] at h2
+          simp only [tree, hd, Bool.false_eq_true, ↓reduceIte, List.filterMap_append]
+          refine ((ih _ (by omega)).append (ih _ (by omega))).trans ?_
+          exact product_set_perm st _ _ _ hi hp
+
+theorem labelWith_perm (br : Store → Branch) (hv : ValidBranch br) (s : System) :
+    (labelWith br s).Perm (solutions s) := by
+  unfold labelWith solutions System.box
+  exact (tree_perm br hv _ _ (Nat.le_refl _)).filter _
+
+theorem bisectParts_perm (d : List Int) : ((bisectParts d).1 ++ (bisectParts d).2).Perm d := by
+  unfold bisectParts
+  exact List.filter_append_perm _ _
+
+theorem firstOpen_spec : ∀ (st : Store) (k : Nat), (∃ d ∈ st, 2 ≤ d.length) →
+    k ≤ firstOpen st k ∧ 2 ≤ (st.getD (firstOpen st k - k) []).length
+  | [], _, h => by simp at h
+  | d :: ds, k, h => by
+      unfold firstOpen
+      split
+      · rename_i hd; simpa using hd
+      · rename_i hd
+        have h' : ∃ d' ∈ ds, 2 ≤ d'.length := by
+          obtain ⟨d', hm, hl⟩ := h
+          rcases List.mem_cons.1 hm with rfl | hm
+          · exact absurd hl hd
+          · exact ⟨d', hm, hl⟩
+        obtain ⟨h1, h2⟩ := firstOpen_spec ds (k+1) h'
+        refine ⟨by omega, ?_⟩
+        have : firstOpen ds (k+1) - k = (firstOpen ds (k+1) - (k+1)) + 1 := by omega
+        rw [this]; simpa using h2
+
+theorem exists_open_of_not_done {st : Store} (h : st.done = false) : ∃ d ∈ st, 2 ≤ d.length := by
+  by_contra hc
+  have : st.done = true := by
+    simp only [Store.done, List.all_eq_true, decide_eq_true_eq]
+    intro d hd
+    by_contra hl
+    exact hc ⟨d, hd, by omega⟩
+  rw [this] at h; cases h
+
+theorem isOpen_fixSel (sel : Store → Nat) {st : Store} (h : st.done = false) :
+    isOpen st (fixSel sel st) = true := by
+  unfold fixSel
+  split
+  · assumption
+  · have := (firstOpen_spec st 0 (exists_open_of_not_done h)).2
+    simpa [isOpen] using this
+
+theorem lt_length_of_isOpen {st : Store} {i : Nat} (h : isOpen st i = true) : i < st.length := by
+  by_contra hc
+  simp [isOpen, List.getD_eq_getElem?_getD, List.getElem?_eq_none (Nat.le_of_not_lt hc)] at h
+
+theorem ordered_perm (o : Ord) (d : List Int) : (ordered o d).Perm d := by
+  cases o
+  · exact List.Perm.refl _
+  · exact List.reverse_perm d
+
+theorem stepBranch_valid (sel : Store → Nat) (o : Ord) : ValidBranch (stepBranch sel o) := by
+  intro st hd
+  have ho := isOpen_fixSel sel hd
+  have hi := lt_length_of_isOpen ho
+  have hlen : 2 ≤ (st.getD (fixSel sel st) []).length := by simpa [isOpen] using ho
+  have hperm := ordered_perm o (st.getD (fixSel sel st) [])
+  have hql : 2 ≤ (ordered o (st.getD (fixSel sel st) [])).length := by rw [hperm.length_eq]; exact hlen
+  unfold stepBranch
+  match hq : ordered o (st.getD (fixSel sel st) []), hql with
+  | v :: w :: rest, _ =>
+      simp only [hq]
+      refine ⟨hi, by simp, by simp, ?_⟩
+      rw [hq] at hperm
+      simpa using hperm
+
+theorem bisectBranch_valid (sel : Store → Nat) (o : Ord) : ValidBranch (bisectBranch sel o) := by
+  intro st hd
+  have ho := isOpen_fixSel sel hd
+  have hi := lt_length_of_isOpen ho
+  unfold bisectBranch
+  by_cases hc : ((bisectParts (st.getD (fixSel sel st) [])).1.isEmpty
+      || (bisectParts (st.getD (fixSel sel st) [])).2.isEmpty) = true
+  · simp only [hc, if_true]
+    exact stepBranch_valid sel o st hd
+  · simp only [hc, if_false, Bool.false_eq_true]
+    simp only [Bool.or_eq_true, List.isEmpty_iff, not_or] at hc
+    cases o
+    · exact ⟨hi, hc.1, hc.2, bisectParts_perm _⟩
+    · exact ⟨hi, hc.2, hc.1, List.perm_append_comm.trans (bisectParts_perm _)⟩
+
+
+/-! ### exact order of the leftmost / ascending strategies -/
+
+def SortedStore (st : Store) : Prop := ∀ d ∈ st, d.Pairwise (· < ·)
+
+/-- ascending leftmost branching: the first open variable, all left values below all right values. -/
+def AscBranch (br : Store → Branch) : Prop :=
+  ∀ st : Store, SortedStore st → st.done = false →
+    (br st).i = firstOpen st 0 ∧ (∀ x ∈ (br st).left, ∀ y ∈ (br st).right, x < y) ∧
+    (br st).left.Pairwise (· < ·) ∧ (br st).right.Pairwise (· < ·)
+
+theorem firstOpen_prefix : ∀ (st : Store) (k j : Nat), j + k < firstOpen st k →
+    (st.getD j []).length ≤ 1
+  | [], _, _, _ => by simp
+  | d :: ds, k, j, h => by
+      unfold firstOpen at h
+      split at h
+      · omega
+      · rename_i hd
+        cases j with
+        | zero => simp; omega
+        | succ j =>
+            have := firstOpen_prefix ds (k+1) j (by omega)
+            simpa using this
+
+theorem lex_of_split : ∀ (st : Store) (i : Nat) (L R a b : List Int),
+    (∀ j < i, (st.getD j []).length ≤ 1) → (∀ x ∈ L, ∀ y ∈ R, x < y) → i < st.length →
+    a ∈ product (st.set i L) → b ∈ product (st.set i R) → lexLt a b
+  | [], _, _, _, _, _, _, _, hi, _, _ => by simp at hi
+  | d :: ds, 0, L, R, a, b, _, hlr, _, ha, hb => by
+      simp only [List.set_cons_zero, product, List.mem_flatMap, List.mem_map] at ha hb
+      obtain ⟨x, hx, t, _, rfl⟩ := ha
+      obtain ⟨y, hy, u, _, rfl⟩ := hb
+      exact lexLt_cons.2 (Or.inl (hlr x hx y hy))
+  | d :: ds, i+1, L, R, a, b, hpre, hlr, hi, ha, hb => by
+      simp only [List.set_cons_succ, product, List.mem_flatMap, List.mem_map] at ha hb
+      obtain ⟨x, hx, t, ht, rfl⟩ := ha
+      obtain ⟨y, hy, u, hu, rfl⟩ := hb
+      have hd : d.length ≤ 1 := by simpa using hpre 0 (by omega)
+      have hxy : x = y := by
+        match d, hd, hx, hy with
+        | [z], _, hx, hy => simp at hx hy; rw [hx, hy]
+      refine lexLt_cons.2 (Or.inr ⟨hxy, ?_⟩)
+      refine lex_of_split ds i L R t u ?_ hlr (by simpa using hi) ht hu
+      intro j hj
+      simpa using hpre (j+1) (by omega)
+
+theorem sortedStore_set {st : Store} {i : Nat} {L : List Int} (h : SortedStore st)
+    (hL : L.Pairwise (· < ·)) : SortedStore (st.set i L) := by
+  intro d hd
+  rcases List.mem_or_eq_of_mem_set hd with hd | rfl
+  · exact h d hd
+  · exact hL
+
+theorem tree_sorted (br : Store → Branch) (hv : ValidBranch br) (ha : AscBranch br) :
+    ∀ (f : Nat) (st : Store), st.size ≤ f → SortedStore st →
+      ((tree br f st).filterMap Store.assignment).Pairwise lexLt := by
+  intro f
+  induction f with
+  | zero =>
+      intro st _ _
+      rw [show tree br 0 st = [st] from rfl]
+      cases h : Store.assignment st <;> simp [h]
+  | succ f ih =>
+      intro st hs hst
+      cases hd : st.done with
+      | true =>
+          rw [show tree br (f+1) st = [st] by simp [tree, hd]]
+          cases h : Store.assignment st <;> simp [h]
+      | false =>
+          obtain ⟨hi, hl, hr, hp⟩ := hv st hd
+          obtain ⟨hfo, hlr, hsl, hsr⟩ := ha st hst hd
+          have hl' : 0 < (br st).left.length := List.length_pos_iff.2 hl
+          have hr' : 0 < (br st).right.length := List.length_pos_iff.2 hr
+          have h2 := hp.length_eq
+          have h1 := size_set st (br st).i (br st).left hi
+          have h3 := size_set st (br st).i (br st).right hi
+          simp only [List.length_append] at h2
+          have szl : Store.size (st.set (br st).i (br st).left) ≤ f := by omega
+          have szr : Store.size (st.set (br st).i (br st).right) ≤ f := by omega
+          simp only [tree, hd, Bool.false_eq_true, ↓reduceIte, List.filterMap_append]
+          rw [List.pairwise_append]
+          refine ⟨ih _ szl (sortedStore_set hst hsl), ih _ szr (sortedStore_set hst hsr), ?_⟩
+          intro a haa b hbb
+          have ha' := (tree_perm br hv f _ szl).subset haa
+          have hb' := (tree_perm br hv f _ szr).subset hbb
+          refine lex_of_split st (br st).i _ _ a b ?_ hlr hi ha' hb'
+          intro j hj
+          rw [hfo] at hj
+          exact firstOpen_prefix st 0 j (by omega)
+
+theorem lexLt_antisymm {a b : List Int} (h1 : lexLt a b) (h2 : lexLt b a) : a = b :=
+  absurd (lexLt_trans h1 h2) (lexLt_irrefl a)
+
+theorem labelWith_eq_solutions (br : Store → Branch) (hv : ValidBranch br) (ha : AscBranch br)
+    (s : System) : labelWith br s = solutions s := by
+  have hp := labelWith_perm br hv s
+  have hs : (labelWith br s).Pairwise lexLt := by
+    unfold labelWith
+    refine (tree_sorted br hv ha _ _ (Nat.le_refl _) ?_).filter _
+    intro d hd
+    obtain ⟨d', _, rfl⟩ := List.mem_map.1 hd
+    exact Dom.toList_sorted d'
+  exact List.Perm.eq_of_pairwise (le := lexLt) (fun a b _ _ h1 h2 => lexLt_antisymm h1 h2)
+    hs (solutions_sorted s) hp
+
+theorem fixSel_leftmost (st : Store) : fixSel (selIndex .leftmost) st = firstOpen st 0 := by
+  have h : selIndex .leftmost st = firstOpen st 0 := rfl
+  unfold fixSel
+  rw [h]
+  exact ite_self _
+
+theorem getD_mem_sorted {st : Store} (h : SortedStore st) (i : Nat) :
+    (st.getD i []).Pairwise (· < ·) := by
+  by_cases hi : i < st.length
+  · rw [List.getD_eq_getElem?_getD, List.getElem?_eq_getElem hi]
+    exact h _ (List.getElem_mem hi)
+  · rw [List.getD_eq_getElem?_getD, List.getElem?_eq_none (Nat.le_of_not_lt hi)]
+    simp
+
+theorem stepBranch_asc : AscBranch (stepBranch (selIndex .leftmost) .up) := by
+  intro st hst hd
+  have hsorted := getD_mem_sorted hst (fixSel (selIndex .leftmost) st)
+  have ho := isOpen_fixSel (selIndex .leftmost) hd
+  have hlen : 2 ≤ (st.getD (fixSel (selIndex .leftmost) st) []).length := by simpa [isOpen] using ho
+  unfold stepBranch
+  simp only [ordered]
+  match hq : st.getD (fixSel (selIndex .leftmost) st) [], hlen with
+  | v :: w :: rest, _ =>
+      rw [hq] at hsorted
+      rw [List.pairwise_cons] at hsorted
+      refine ⟨fixSel_leftmost st, ?_, by simp, hsorted.2⟩
+      intro x hx y hy
+      simp only [List.mem_singleton] at hx
+      subst hx
+      exact hsorted.1 y hy
+
+theorem bisectBranch_asc : AscBranch (bisectBranch (selIndex .leftmost) .up) := by
+  intro st hst hd
+  unfold bisectBranch
+  by_cases hc : ((bisectParts (st.getD (fixSel (selIndex .leftmost) st) [])).1.isEmpty
+      || (bisectParts (st.getD (fixSel (selIndex .leftmost) st) [])).2.isEmpty) = true
+  · simp only [hc, if_true]
+    exact stepBranch_asc st hst hd
+  · simp only [hc, if_false, Bool.false_eq_true]
+    have hsorted := getD_mem_sorted hst (fixSel (selIndex .leftmost) st)
+    refine ⟨fixSel_leftmost st, ?_, ?_, ?_⟩
+    · intro x hx y hy
+      simp only [bisectParts, List.mem_filter, decide_eq_true_eq, Bool.not_eq_eq_eq_not,
+        Bool.not_true, decide_eq_false_iff_not] at hx hy
+      omega
+    · exact hsorted.filter _
+    · exact hsorted.filter _
+
+/-! ### monotonicity -/
+
+theorem solutions_append (d : List Dom) (cs extra : List Constraint) :
+    solutions ⟨d, cs ++ extra⟩ = (solutions ⟨d, cs⟩).filter (fun a => extra.all (sat a)) := by
+  unfold solutions System.box System.holds
+  simp only [List.filter_filter, List.all_append]
+  apply List.filter_congr
+  intro a _
+  exact Bool.and_comm _ _
+
+/-! ### canonical value lists -/
+
+theorem sorted_ext {l₁ l₂ : List Int} (h₁ : l₁.Pairwise (· < ·)) (h₂ : l₂.Pairwise (· < ·))
+    (h : ∀ x, x ∈ l₁ ↔ x ∈ l₂) : l₁ = l₂ := by
+  have n₁ : l₁.Nodup := h₁.imp (fun hab => Int.ne_of_lt hab)
+  have n₂ : l₂.Nodup := h₂.imp (fun hab => Int.ne_of_lt hab)
+  have hp : l₁.Perm l₂ := (List.perm_ext_iff_of_nodup n₁ n₂).2 h
+  exact List.Perm.eq_of_pairwise (le := (· < ·)) (fun a b _ _ hab hba => by omega) h₁ h₂ hp
+
+theorem inter_sorted {xs : List Int} (ys : List Int) (h : xs.Pairwise (· < ·)) :
+    (inter xs ys).Pairwise (· < ·) := h.filter _
+
+/-! ### reification -/
+
+theorem conn_table (p q : Bool) :
+    (Conn.apply .and p q = true ↔ (p = true ∧ q = true)) ∧
+    (Conn.apply .or p q = true ↔ (p = true ∨ q = true)) ∧
+    (Conn.apply .imp p q = true ↔ (p = true → q = true)) ∧
+    (Conn.apply .rimp p q = true ↔ (q = true → p = true)) ∧
+    (Conn.apply .iff p q = true ↔ (p = true ↔ q = true)) ∧
+    (Conn.apply .xor p q = true ↔ ¬ (p = true ↔ q = true)) := by
+  cases p <;> cases q <;> simp [Conn.apply]
+
+theorem reify_iff (env : List Int) (i : Nat) (f : Form) :
+    sat env (.form (.bin .iff (.bvar i) f)) = true ↔
+      f.boolOk env = true ∧
+      ((env[i]? = some 1 ∧ f.truth env = true) ∨ (env[i]? = some 0 ∧ f.truth env = false)) := by
+  simp only [sat, Form.boolOk, Form.truth, Conn.apply]
+  rcases h : env[i]? with _ | v
+  · simp
+  · by_cases h0 : v = 0
+    · subst h0; cases f.truth env <;> cases f.boolOk env <;> simp
+    · by_cases h1 : v = 1
+      · subst h1; cases f.truth env <;> cases f.boolOk env <;> simp
+      · simp [h0, h1]
+
+/-- the rewrite rules of `reify_/2` preserve the meaning. -/
+theorem rewrite_imp (env : List Int) (f g : Form) :
+    sat env (.form (.bin .imp f g)) = sat env (.form (.bin .or (.not f) g)) := by
+  simp [sat, Form.boolOk, Form.truth, Conn.apply]
+
+theorem rewrite_rimp (env : List Int) (f g : Form) :
+    sat env (.form (.bin .rimp f g)) = sat env (.form (.bin .imp g f)) := by
+  simp only [sat, Form.boolOk, Form.truth, Conn.apply, Bool.and_comm]
+
+theorem rewrite_iff (env : List Int) (f g : Form) :
+    sat env (.form (.bin .iff f g)) = sat env (.form (.bin .and (.bin .imp f g) (.bin .imp g f))) := by
+  simp only [sat, Form.boolOk, Form.truth, Conn.apply]
+  cases f.truth env <;> cases g.truth env <;> cases f.boolOk env <;> cases g.boolOk env <;> rfl
+
+theorem rewrite_xor (env : List Int) (f g : Form) :
+    sat env (.form (.bin .xor f g)) =
+      sat env (.form (.bin .and (.bin .or f g) (.not (.bin .and f g)))) := by
+  simp only [sat, Form.boolOk, Form.truth, Conn.apply]
+  cases f.truth env <;> cases g.truth env <;> cases f.boolOk env <;> cases g.boolOk env <;> rfl
+
+theorem rewrite_gt (env : List Int) (l r : Expr) :
+    relSat env .gt l r = relSat env .ge l (.bin .add r (.lit 1)) := by
+  simp only [relSat, eval, evalBin]
+  cases eval env l <;> cases eval env r <;> simp [Rel.holds]
+  omega
+
+theorem rewrite_le (env : List Int) (l r : Expr) :
+    relSat env .le l r = relSat env .ge r l := by
+  simp only [relSat]
+  cases eval env l <;> cases eval env r <;> simp [Rel.holds]
+
+theorem rewrite_lt (env : List Int) (l r : Expr) :
+    relSat env .lt l r = relSat env .ge r (.bin .add l (.lit 1)) := by
+  simp only [relSat, eval, evalBin]
+  cases eval env l <;> cases eval env r <;> simp [Rel.holds]
+  omega
+
+/-! ### ground expressions and Model.ArithInt -/
+
+def unToArith : UnOp → Arith.UnOp
+  | .neg => .neg | .abs => .abs | .sign => .sign
+
+def binToArith : BinOp → Option Arith.BinOp
+  | .add => some .add | .sub => some .sub | .mul => some .mul | .tdiv => some .idiv
+  | .fdiv => some .div | .mod => some .mod | .rem => some .rem | .exdiv => none
+  | .pow => some .pow | .min => some .min | .max => some .max
+
+/-- translation of a ground, `/`-free clp(Z) expression into an is/2 expression of C01. -/
+def toArith : Expr → Option Arith.Expr
+  | .var _ => none
+  | .lit v => some (.lit v)
+  | .un op e => (toArith e).map (Arith.Expr.un (unToArith op))
+  | .bin op l r =>
+      match binToArith op, toArith l, toArith r with
+      | some o, some a, some b => some (.bin o a b)
+      | _, _, _ => none
+
+theorem evalUn_eq_spec (op : UnOp) (a : Int) :
+    Arith.specUn (unToArith op) a = .ok (evalUn op a) := by
+  cases op <;> rfl
+
+theorem evalBin_eq_spec {op : BinOp} {o : Arith.BinOp} (h : binToArith op = some o) (a b : Int) :
+    evalBin op a b = (Arith.specBin o a b).toOption := by
+  cases op <;> simp only [binToArith, Option.some.injEq, reduceCtorEq] at h <;> subst h <;>
+    simp only [evalBin, Arith.specBin, Except.toOption]
+  all_goals try (split <;> rfl)
+  -- pow
+  by_cases h0 : a = 0 ∧ b < 0
+  · obtain ⟨rfl, hb⟩ := h0
+    simp [hb]
+  · by_cases h1 : b < 0 ∧ a ≠ 1 ∧ a ≠ -1
+    · rw [if_pos h1, if_neg h0, if_pos h1]
+    · rw [if_neg h1, if_neg h0, if_neg h1]
+      rfl
+
+theorem eval_eq_evalSpec : ∀ (e : Expr) (a : Arith.Expr), toArith e = some a →
+    ∀ env, eval env e = (Arith.evalSpec a).toOption
+  | .var _, _, h, _ => by simp [toArith] at h
+  | .lit v, a, h, _ => by
+      simp only [toArith, Option.some.injEq] at h; subst h; rfl
+  | .un op e, a, h, env => by
+      simp only [toArith, Option.map_eq_some_iff] at h
+      obtain ⟨a', ha', rfl⟩ := h
+      have ih := eval_eq_evalSpec e a' ha' env
+      simp only [eval, Arith.evalSpec, ih]
+      cases Arith.evalSpec a' with
+      | error x => rfl
+      | ok v => simp [Except.toOption, evalUn_eq_spec]
+  | .bin op l r, a, h, env => by
+      simp only [toArith] at h
+      split at h
+      · rename_i o a1 a2 ho h1 h2
+        simp only [Option.some.injEq] at h; subst h
+        have ih1 := eval_eq_evalSpec l a1 h1 env
+        have ih2 := eval_eq_evalSpec r a2 h2 env
+        simp only [eval, Arith.evalSpec, ih1, ih2]
+        cases Arith.evalSpec a1 with
+        | error x => rfl
+        | ok v =>
+          cases Arith.evalSpec a2 with
+          | error x => rfl
+          | ok w => simp only [Except.toOption]; exact evalBin_eq_spec ho v w
+      · cases h
+
+
+/-! ### descending enumeration -/
+
+theorem product_reverse : ∀ ds : List (List Int),
+    product (ds.map List.reverse) = (product ds).reverse
+  | [] => by simp [product]
+  | d :: ds => by
+      simp only [List.map_cons, product, product_reverse ds, List.reverse_flatMap]
+      congr 1
+      funext v
+      simp [Function.comp, List.map_reverse]
+
+theorem solutionsDown_eq (s : System) : solutionsDown s = (solutions s).reverse := by
+  unfold solutionsDown solutions System.box
+  rw [← List.filter_reverse, ← product_reverse, List.map_map]
+  rfl
+
 end Scryer.Fd
